@@ -27,6 +27,12 @@ static inline void v_ulock_unlock(struct v_ulock *l) { __CPROVER_assert(l->owns,
 static inline void v_ulock_release(struct v_ulock *l) { if (l->owns) v_mutex_unlock(l->m); l->owns = 0; }
 static inline void v_cv_notify(struct v_cv *c) { (void)c; }
 static inline struct v_thread v_thread_spawn(void) { struct v_thread t; t.joinable = 1; return t; }
+#ifdef V_THREAD_NEW_OPAQUE
+/* the new thread object is only stored, never looked into, by the function under contract (allocation inside a contracted loop is not supported by dfcc) */
+static inline struct v_thread *v_thread_new(void) { struct v_thread *t; __CPROVER_assume(t != NULL); return t; }
+#else
+static inline struct v_thread *v_thread_new(void) { struct v_thread *t = (struct v_thread *)v_alloc_ok(sizeof(struct v_thread)); t->joinable = 1; return t; }
+#endif
 static inline void v_thread_init(struct v_thread *t) { t->joinable = 0; }
 static inline void v_thread_swap(struct v_thread *a, struct v_thread *b) { struct v_thread t = *a; *a = *b; *b = t; }
 static inline _Bool v_thread_joinable(const struct v_thread *t) { return t->joinable; }
